@@ -78,6 +78,9 @@ func siteLocKind(sp *spec.Spec, m *spec.Method, attrDecl *spec.Attr, desc string
 			if strings.Count(p[2], ".")+strings.Count(p[2], "[")+strings.Count(p[2], "{") > 1 {
 				k += ":nested"
 			}
+			if strings.Contains(p[2], "|") {
+				k += ":in-union" // the probed place lies inside the selected alternative of a union
+			}
 			return locName(loc), k
 		}
 	}
@@ -314,7 +317,7 @@ func attrAt(sp *spec.Spec, decl *spec.Attr, path string) *spec.Attr {
 		switch path[i] {
 		case '.':
 			j := i + 1
-			for j < len(path) && path[j] != '.' && path[j] != '[' && path[j] != '{' {
+			for j < len(path) && path[j] != '.' && path[j] != '[' && path[j] != '{' && path[j] != '|' {
 				j++
 			}
 			if rt.Kind != spec.Object {
@@ -329,6 +332,16 @@ func attrAt(sp *spec.Spec, decl *spec.Attr, path string) *spec.Attr {
 			}
 			cur = rt.Elem
 			i += j + 1
+		case '|':
+			j := i + 1
+			for j < len(path) && path[j] != '.' && path[j] != '[' && path[j] != '{' && path[j] != '|' {
+				j++
+			}
+			if rt.Kind != spec.Union {
+				return nil
+			}
+			cur = rt.Attr(path[i+1 : j])
+			i = j
 		case '{':
 			j := strings.IndexByte(path[i:], '}')
 			if j < 0 || rt.Kind != spec.Map {
@@ -365,6 +378,11 @@ func siteTags(sp *spec.Spec, m *spec.Method, decl *spec.Attr, site string, reque
 			if mv.ExclMin != nil && mv.ExclMax != nil {
 				tags = append(tags, "both-exclusive-bounds")
 			}
+		}
+		if strings.Contains(p[2], "|") {
+			// the probed place lies inside the selected alternative of a union: over HTTP the alternative's value travels
+			// as JSON text in "Value" and is never validated (listed finding)
+			tags = append(tags, "union-member-not-validated")
 		}
 	}
 	if request && m.HTTP != nil && m.Payload != nil {
@@ -427,9 +445,12 @@ var explains = map[string]map[string]bool{
 	"doc:viewed-result-requires-attribute-outside-view": {"refused:*": true},
 	"doc:catch-all-path-spans-segments":                 {"rejected:*": true},
 	"header-array-multi":                                {"refused:*": true, "accepted": true, "mismatch:header-array": true},
+	"union-usertype-value-design-names":                 {"mismatch": true},
+	"union-member-not-validated":                        {"leaked": true, "accepted": true},
+	"body-is-union":                                     {"rejected:*": true, "misnamed:*": true, "mismatch": true},
 }
 
-var tagOrder = []string{"doc:catch-all-path-spans-segments", "doc:error-media-type", "doc:set-cookie-header-schema", "doc:header-mapped-attribute-in-body-schema", "doc:viewed-result-requires-attribute-outside-view", "doc:responses-sharing-status", "schema:map-key-elem-validation-not-documented", "schema:non-string-key-map-is-free-form", "schema:null-body", "schema:request-body-documented-required", "schema:map-length-not-documented", "schema:bytes-length-on-base64-text", "recursive-result-type", "tagged-response-header-absent", "required-object-outside-view", "both-exclusive-bounds", "required-cookie", "required-query-map-absent", "body-attr-absent", "path-value-with-slash", "header-array-multi", "absent-collection-minlen"}
+var tagOrder = []string{"doc:catch-all-path-spans-segments", "doc:error-media-type", "doc:set-cookie-header-schema", "doc:header-mapped-attribute-in-body-schema", "doc:viewed-result-requires-attribute-outside-view", "doc:responses-sharing-status", "schema:map-key-elem-validation-not-documented", "schema:non-string-key-map-is-free-form", "schema:null-body", "schema:request-body-documented-required", "schema:map-length-not-documented", "schema:bytes-length-on-base64-text", "recursive-result-type", "tagged-response-header-absent", "required-object-outside-view", "both-exclusive-bounds", "required-cookie", "required-query-map-absent", "body-attr-absent", "body-is-union", "path-value-with-slash", "header-array-multi", "absent-collection-minlen", "union-usertype-value-design-names", "union-member-not-validated"}
 
 // mkKey builds a violation key. class is the coarse finding class ("rejected:<name>", "leaked",
 // "misnamed:<name>", "refused:<name>", "accepted", "panic", "mismatch:..."). When the input belongs
